@@ -31,8 +31,9 @@ META = {
                   '_SO_fetchAlternateID (idxName=None), SODatabaseIndex.get(**kw); composed chains with the method calls resolved by the translated '
                   'callees: reversed()/distinct() -> clone -> __init__ represents Sel.rev / Sel.dist, sum/min/max/avg -> accumulateOne -> accumulateMany '
                   '-> the item text of aggPlan) for all inputs, plus kernel-evaluated runs of the interpreter on concrete inputs; '
-                  'translated but not proved (tied by extracted constants + text correspondence): queryForSelect, Select.__init__, the unique-index '
-                  'branch (idxName given) of _SO_fetchAlternateID, SODatabaseIndex.get(*args)'),
+                  'queryForSelect (the Select built = the model plan: C11_translated_queryForSelect_eq_model / _plan), the orderBy(o) chain, the '
+                  'unique-index miss branch of _SO_fetchAlternateID; translated but not proved (tied by extracted constants + text correspondence): '
+                  'Select.__init__ (proved in the PySel embedding of C03), SODatabaseIndex.get(*args) positional path'),
     'level_text': ('Theorems C11_*: for every table (any size, any contents, NULLs and duplicates), every filter, every order '
                    'specification (strings with or without the "-" prefix, column names, raw strings, DESC nests, lists), any number '
                    'of reversed() calls, distinct or not: the rows the plan denotes are a permutation of the filtered (distinct) rows '
